@@ -158,6 +158,12 @@ pub fn cfg_line(addrs: &[Vec<Ip>]) -> String {
     s
 }
 
+pub fn parse_eph(line: &str) -> Option<(u16, u16)> {
+    let v = line.split_whitespace().find_map(|t| t.strip_prefix("eph="))?;
+    let (a, b) = v.split_once('-')?;
+    Some((a.parse().ok()?, b.parse().ok()?))
+}
+
 pub fn parse_cfg(line: &str) -> Vec<Vec<Ip>> {
     let mut out = Vec::new();
     for t in line.split_whitespace().skip(1) {
@@ -177,6 +183,11 @@ pub fn parse_cfg(line: &str) -> Vec<Vec<Ip>> {
 
 impl World {
     pub fn new(addrs: &[Vec<Ip>]) -> World {
+        World::new_with(addrs, None)
+    }
+
+    /// `eph`: shrink every host's ephemeral range through the verification hook.
+    pub fn new_with(addrs: &[Vec<Ip>], eph: Option<(u16, u16)>) -> World {
         let mut net = Net::new();
         let mut hosts = Vec::new();
         for a in addrs {
@@ -184,6 +195,11 @@ impl World {
             hosts.push(net.add_host(ips));
         }
         let guard = net.enter();
+        if let Some((lo, hi)) = eph {
+            for h in &hosts {
+                turmoil_net::verif_table_set_ephemeral_range(*h, lo, hi);
+            }
+        }
         World { slots: BTreeMap::new(), hosts, addrs: addrs.to_vec(), guard }
     }
 
@@ -951,6 +967,17 @@ pub fn gen_exhaust_case(rng: &mut Rng, st: &mut Stats) -> Vec<String> {
             }
         }
     }
+    // the range is full and the cursor sits just behind the last port handed out: free exactly
+    // that port - it is the very last candidate of the next scan - and ask again
+    if let Some(s) = live.pop() {
+        out.step(&mut w, st, Op::Close { h: 0, s });
+        let s2 = next_slot;
+        next_slot += 1;
+        let obs = out.step(&mut w, st, Op::UBind { h: 0, s: s2, ip: Ip::v4(11), port: 0 });
+        if obs.starts_with("ok") {
+            live.push(s2);
+        }
+    }
     // free some, reallocate, exhaust again
     for _round in 0..2 {
         let k = 1 + rng.below(4);
@@ -982,12 +1009,177 @@ pub fn gen_exhaust_case(rng: &mut Rng, st: &mut Stats) -> Vec<String> {
     out.lines
 }
 
+
+/// Tiny ephemeral range (verification hook): every fill order, every position of the free
+/// port(s) relative to the cursor, all protocol spaces sharing the one cursor, auto-bind.
+pub fn gen_tiny_case(rng: &mut Rng, st: &mut Stats) -> Vec<String> {
+    let addrs: Vec<Vec<Ip>> = vec![vec![Ip::v4(10), Ip::v4(11), Ip::v6(10)], vec![Ip::v4(20), Ip::v6(20)]];
+    let (lo, hi) = *rng.pick(&[
+        (49152u16, 49152u16),
+        (49152, 49153),
+        (49152, 49154),
+        (49152, 49155),
+        (49152, 49155),
+        (50000, 50004),
+        (65533, 65535),
+        (65535, 65535),
+    ]);
+    let n = (hi - lo + 1) as usize;
+    let mut out = Out { lines: vec![format!("{} eph={lo}-{hi}", cfg_line(&addrs))] };
+    let mut w = World::new_with(&addrs, Some((lo, hi)));
+    let mut next_slot = 1u32;
+    let v4 = [Ip::v4(10), Ip::v4(11), Ip::v4(0), Ip::v4(1)];
+    // sometimes start with the cursor somewhere inside the range
+    if rng.chance(1, 2) {
+        let k = rng.below(n + 1) as u32;
+        if k > 0 {
+            out.step(&mut w, st, Op::Cycle { h: 0, ip: Ip::v4(10), n: k });
+        }
+    }
+    // ---- phase A: fill the UDP/v4 space, then free and re-bind at every relative position
+    let mut live: Vec<u32> = Vec::new();
+    for i in 0..n + 1 {
+        let s = next_slot;
+        next_slot += 1;
+        let obs = out.step(&mut w, st, Op::UBind { h: 0, s, ip: v4[i % 4], port: 0 });
+        if obs.starts_with("ok") {
+            live.push(s);
+        }
+    }
+    let rounds = (n * n).clamp(2, 10);
+    let mut tcp_tmp: Vec<u32> = Vec::new();
+    for _ in 0..rounds {
+        if live.is_empty() {
+            break;
+        }
+        // move the cursor: free one port and take it again
+        let i = rng.below(live.len());
+        let s = live.swap_remove(i);
+        out.step(&mut w, st, Op::Close { h: 0, s });
+        let s2 = next_slot;
+        next_slot += 1;
+        if out.step(&mut w, st, Op::UBind { h: 0, s: s2, ip: *rng.pick(&v4), port: 0 }).starts_with("ok") {
+            live.push(s2);
+        }
+        // free one or two ports anywhere
+        let k = if live.len() >= 2 && rng.chance(1, 3) { 2 } else { 1 };
+        for _ in 0..k {
+            if live.is_empty() {
+                break;
+            }
+            let i = rng.below(live.len());
+            let s = live.swap_remove(i);
+            out.step(&mut w, st, Op::Close { h: 0, s });
+        }
+        // another protocol space shares the cursor
+        if rng.chance(1, 3) {
+            let s3 = next_slot;
+            next_slot += 1;
+            let (ip, tcp) = *rng.pick(&[(Ip::v4(10), true), (Ip::v6(10), false), (Ip::v6(0), true)]);
+            let op = if tcp { Op::TListen { h: 0, s: s3, ip, port: 0 } } else { Op::UBind { h: 0, s: s3, ip, port: 0 } };
+            if out.step(&mut w, st, op).starts_with("ok") {
+                tcp_tmp.push(s3);
+            }
+            if tcp_tmp.len() > 1 && rng.chance(1, 2) {
+                let s = tcp_tmp.remove(0);
+                out.step(&mut w, st, Op::Close { h: 0, s });
+            }
+        }
+        // and bind again: exactly the freed ports must come back, then exhaustion
+        for _ in 0..k + 1 {
+            let s4 = next_slot;
+            next_slot += 1;
+            if out.step(&mut w, st, Op::UBind { h: 0, s: s4, ip: *rng.pick(&v4), port: 0 }).starts_with("ok") {
+                live.push(s4);
+            }
+        }
+    }
+    // ---- phase B: free mix over both hosts, TCP + UDP, v4 + v6, explicit in-range ports, auto-bind
+    let nops = 20 + rng.below(30);
+    for _ in 0..nops {
+        let slots: Vec<(u32, usize, bool)> =
+            w.slots.iter().map(|(k, v)| (*k, v.host(), matches!(v, Slot::Lsn(..)))).collect();
+        let listeners: Vec<(u32, usize)> = slots.iter().filter(|x| x.2).map(|x| (x.0, x.1)).collect();
+        match rng.weighted(&[28, 18, if slots.is_empty() { 0 } else { 30 }, 8, if listeners.is_empty() { 0 } else { 10 }, 3, if listeners.is_empty() { 0 } else { 4 }]) {
+            0 => {
+                let h = rng.below(2);
+                let ip = *rng.pick(&[addrs[h][0], Ip::v4(0), Ip::v4(1), *addrs[h].last().unwrap(), Ip::v6(0), Ip::v6(1)]);
+                let s = next_slot;
+                next_slot += 1;
+                out.step(&mut w, st, Op::UBind { h, s, ip, port: 0 });
+            }
+            1 => {
+                let h = rng.below(2);
+                let ip = *rng.pick(&[addrs[h][0], Ip::v4(0), *addrs[h].last().unwrap(), Ip::v6(0)]);
+                let s = next_slot;
+                next_slot += 1;
+                out.step(&mut w, st, Op::TListen { h, s, ip, port: 0 });
+            }
+            2 => {
+                let (s, h, _) = *rng.pick(&slots);
+                out.step(&mut w, st, Op::Close { h, s });
+            }
+            3 => {
+                // squat a port of the range explicitly
+                let h = rng.below(2);
+                let port = lo + rng.below(n) as u16;
+                let ip = *rng.pick(&[addrs[h][0], Ip::v4(0), Ip::v4(2), Ip::v6(0)]);
+                let s = next_slot;
+                next_slot += 1;
+                if rng.chance(1, 2) {
+                    out.step(&mut w, st, Op::UBind { h, s, ip, port });
+                } else {
+                    out.step(&mut w, st, Op::TListen { h, s, ip, port });
+                }
+            }
+            4 => {
+                // connect = auto-bind in the TCP space of the connecting host
+                let (ls, lh) = *rng.pick(&listeners);
+                if let Some((_, _, la, _)) = w.info(ls) {
+                    if let Some((lip, lport)) = split_ep(&sa_tok(la)) {
+                        let h = rng.below(2);
+                        let ip = if lip.n != 0 && (!lip.is_loopback() || h == lh) {
+                            lip
+                        } else if h == lh && rng.chance(1, 2) {
+                            Ip { v6: lip.v6, n: 1 }
+                        } else {
+                            first_of_family(&addrs[lh], lip.v6).unwrap_or(lip)
+                        };
+                        let s = next_slot;
+                        next_slot += 1;
+                        out.step(&mut w, st, Op::TConnect { h, s, ip, port: lport });
+                    }
+                }
+            }
+            5 => {
+                let h = rng.below(2);
+                let k = 1 + rng.below(n + 1) as u32;
+                out.step(&mut w, st, Op::Cycle { h, ip: *rng.pick(&[addrs[h][0], Ip::v4(0), Ip::v6(0)]), n: k });
+            }
+            _ => {
+                let (s, h) = *rng.pick(&listeners);
+                let ns = next_slot;
+                next_slot += 1;
+                out.step(&mut w, st, Op::Accept { h, s, ns });
+            }
+        }
+    }
+    out.step(&mut w, st, Op::Netstat);
+    drop(w);
+    out.lines
+}
+
 /// Re-execute the OP lines of a stored case.
 pub fn replay(lines: &[String], st: &mut Stats) -> Vec<String> {
     let cfg = lines.iter().find(|l| l.starts_with("CFG")).cloned().unwrap_or_else(|| "CFG hosts=0".into());
     let addrs = parse_cfg(&cfg);
-    let mut out = Out { lines: vec![cfg_line(&addrs)] };
-    let mut w = World::new(&addrs);
+    let eph = parse_eph(&cfg);
+    let mut head = cfg_line(&addrs);
+    if let Some((lo, hi)) = eph {
+        head.push_str(&format!(" eph={lo}-{hi}"));
+    }
+    let mut out = Out { lines: vec![head] };
+    let mut w = World::new_with(&addrs, eph);
     for l in lines {
         if let Some(op) = Op::parse(l) {
             out.step(&mut w, st, op);
